@@ -85,4 +85,61 @@ def checkedProp (raw : List (String × RawVal)) (tys : List (String × Option Ty
     | some t, some v => if propCheck v.elem v.shape t then some (p.1, v.digest) else none
     | _, _ => none)
 
+/-! ## Flows: Vars that carry values through several constructor calls
+
+`VarState` = what a Var carries (type; element type / shape / digest of an attached ndarray).
+`attachOne` = the attach loop of `Node.inference` for one output Var. A `Step` is one constructor call
+of a flow (arguments by Var id, an arbitrary value-propagation backend); `Step.call env` is the call as
+the Vars stand (type → value info, digest of the attached value → initializer); outputs get fresh ids;
+a rejected call leaves the environment unchanged. -/
+
+
+structure VarState where
+  ty : Option Ty
+  raw : Option RawVal
+  deriving Repr, Inhabited
+
+def VarState.fits (s : VarState) : Bool :=
+  match s.raw with
+  | none => true
+  | some v => match s.ty with
+    | some t => propCheck v.elem v.shape t
+    | none => false
+
+def attachOne (raw : List (String × RawVal)) (p : String × Option Ty) : VarState :=
+  match p.2, lookupRaw p.1 raw with
+  | some t, some v => if propCheck v.elem v.shape t then ⟨some t, some v⟩ else ⟨some t, none⟩
+  | ot, _ => ⟨ot, none⟩
+
+abbrev Env := Nat → VarState
+
+structure Step where
+  sig : Sig
+  args : List Arg
+  attrs : List (String × Option String)
+  outVariadic : Nat
+  backend : Call → List (String × Option Ty) → List (String × RawVal)
+
+def Step.call (s : Step) (env : Env) : Call :=
+  { sig := s.sig, args := s.args, attrs := s.attrs, outVariadic := s.outVariadic,
+    info := fun v => ⟨(env v).ty, (env v).raw.map (fun r => r.digest)⟩ }
+
+def stepOut (st : Env × Nat) (s : Step) (c : Call) : Result → Env × Nat
+  | .error _ => st
+  | .ok tys =>
+    let outs := tys.map (attachOne (s.backend c tys))
+    (fun v => if st.2 ≤ v ∧ v < st.2 + outs.length then outs.getD (v - st.2) default else st.1 v,
+      st.2 + outs.length)
+
+def stepEnv (Infer : InferFn) (st : Env × Nat) (s : Step) : (Env × Nat) × Result :=
+  (stepOut st s (s.call st.1) (construct Infer (s.call st.1)), construct Infer (s.call st.1))
+
+def runFlow (Infer : InferFn) : Env × Nat → List Step → (Env × Nat) × List Result
+  | st, [] => (st, [])
+  | st, s :: ss =>
+    let r := stepEnv Infer st s
+    let rest := runFlow Infer r.1 ss
+    (rest.1, r.2 :: rest.2)
+
+
 end Sing
